@@ -9,6 +9,12 @@ def producerMessageOverhead : Int := 26
 /-- constant recordBatchOverhead -/
 def recordBatchOverhead : Int := 49
 
+/-- constant maximumRecordOverhead -/
+def maximumRecordOverhead : Int := 36
+
+/-- constant MaxRequestSize -/
+def maxRequestSizeDefault : Int := 104857600
+
 /-- generated from produce_set.go (*produceSet).wouldOverflow -/
 def wouldOverflow (isV2 : Bool) (bufferBytes : Int) (bs : Int) (mrs : Int) (topicPresent : Bool) (partPresent : Bool) (pbb : Int) (mmb : Int) (maxm : Int) (bufferCount : Int) (version : Int) : Bool × Int :=
   let version_v1 : Int := 1
@@ -57,10 +63,10 @@ def empty (bufferCount : Int) : Bool :=
   (decide (bufferCount = 0))
 
 /-- generated from async_producer.go (*ProducerMessage).byteSize -/
-def byteSize (version : Int) (mro : Int) (keyPresent : Bool) (valPresent : Bool) (klen : Int) (vlen : Int) (sizeAfterHeaders : Int) : Int :=
+def byteSize (version : Int) (keyPresent : Bool) (valPresent : Bool) (klen : Int) (vlen : Int) (sizeAfterHeaders : Int) : Int :=
   let size_v1 : Int := 0
   if (version ≥ 2) then
-    let size_v2 : Int := mro
+    let size_v2 : Int := 36
     let size_v3 : Int := sizeAfterHeaders
     if (keyPresent = true) then
       let size_v4 : Int := (Go.add64 size_v3 klen)
@@ -92,8 +98,8 @@ def byteSize (version : Int) (mro : Int) (keyPresent : Bool) (valPresent : Bool)
         size_v7
 
 /-- generated from async_producer.go (*ProducerMessage).byteSize (fragment starting at `size += len(h.Key)`) -/
-def byteSizeHeaderStep (size : Int) (hk : Int) (hv : Int) (mv32 : Int) : Int :=
-  let size_v1 : Int := (Go.add64 size (Go.add64 (Go.add64 hk hv) (Go.mul64 2 mv32)))
+def byteSizeHeaderStep (size : Int) (hk : Int) (hv : Int) : Int :=
+  let size_v1 : Int := (Go.add64 size (Go.add64 (Go.add64 hk hv) (2 * 5)))
   size_v1
 
 /-- generated from async_producer.go (*asyncProducer).dispatcher (fragment starting at `if p.conf.Version.IsAtLeast(V0_11_0_0)`) -/
@@ -127,8 +133,8 @@ def addBatchOverhead (size : Int) : Int :=
   size_v1
 
 /-- generated from produce_set.go (*produceSet).add (fragment starting at `size += maximumRecordOverhead`) -/
-def addRecordOverhead (size : Int) (mro : Int) : Int :=
-  let size_v1 : Int := (Go.add64 size mro)
+def addRecordOverhead (size : Int) : Int :=
+  let size_v1 : Int := (Go.add64 size 36)
   size_v1
 
 /-- generated from produce_set.go (*produceSet).add (fragment starting at `size += len(key) + len(val)`) -/
@@ -137,8 +143,8 @@ def addRecordPayload (size : Int) (klen : Int) (vlen : Int) : Int :=
   size_v1
 
 /-- generated from produce_set.go (*produceSet).add (fragment starting at `size += len(rec.Headers[i].Key)`) -/
-def addHeaderStep (size : Int) (hk : Int) (hv : Int) (mv32 : Int) : Int :=
-  let size_v1 : Int := (Go.add64 size (Go.add64 (Go.add64 hk hv) (Go.mul64 2 mv32)))
+def addHeaderStep (size : Int) (hk : Int) (hv : Int) : Int :=
+  let size_v1 : Int := (Go.add64 size (Go.add64 (Go.add64 hk hv) (2 * 5)))
   size_v1
 
 /-- generated from produce_set.go (*produceSet).add (fragment starting at `set.bufferBytes += size`) -/
@@ -169,5 +175,62 @@ def rollOver (timer : Int) (timerFired : Bool) (buffer : Int) (nilTimer : Int) (
   let timerFired_v1 : Bool := false
   let buffer_v1 : Int := fresh
   (timer_v1, timerFired_v1, buffer_v1)
+
+/-- generated from async_producer.go (*brokerProducer).run (fragment starting at `if bp.buffer.wouldOverflow(msg)`) -/
+def runMsgBranch (wo : Bool) (pid : Int) (bufEpoch : Int) (msgEpoch : Int) (freq : Int) (timer : Int) (nilv : Int) (wfsErr1 : Int) (wfsErr2 : Int) (addErr : Int) (armedTimer : Int) : Int × Int :=
+  if (wo = true) then
+    let err_v1 : Int := wfsErr1
+    if (err_v1 ≠ nilv) then
+      (1, timer)
+    else
+      if ((pid ≠ (-1)) ∧ (bufEpoch ≠ msgEpoch)) then
+        let err_v2 : Int := wfsErr2
+        if (err_v2 ≠ nilv) then
+          (1, timer)
+        else
+          let err_v3 : Int := addErr
+          if (err_v3 ≠ nilv) then
+            (1, timer)
+          else
+            if ((freq > 0) ∧ (timer = nilv)) then
+              let timer_v1 : Int := armedTimer
+              (0, timer_v1)
+            else
+              (0, timer)
+      else
+        let err_v4 : Int := addErr
+        if (err_v4 ≠ nilv) then
+          (1, timer)
+        else
+          if ((freq > 0) ∧ (timer = nilv)) then
+            let timer_v2 : Int := armedTimer
+            (0, timer_v2)
+          else
+            (0, timer)
+  else
+    if ((pid ≠ (-1)) ∧ (bufEpoch ≠ msgEpoch)) then
+      let err_v5 : Int := wfsErr2
+      if (err_v5 ≠ nilv) then
+        (1, timer)
+      else
+        let err_v6 : Int := addErr
+        if (err_v6 ≠ nilv) then
+          (1, timer)
+        else
+          if ((freq > 0) ∧ (timer = nilv)) then
+            let timer_v3 : Int := armedTimer
+            (0, timer_v3)
+          else
+            (0, timer)
+    else
+      let err_v7 : Int := addErr
+      if (err_v7 ≠ nilv) then
+        (1, timer)
+      else
+        if ((freq > 0) ∧ (timer = nilv)) then
+          let timer_v4 : Int := armedTimer
+          (0, timer_v4)
+        else
+          (0, timer)
 
 end Gen.C16
